@@ -1211,7 +1211,7 @@ func genC07(r *Rng, tier string) []Case {
 	nExh := len(graphs) - nFixed
 	nRand, nBad := 60, 20
 	if tier == "thorough" {
-		nRand, nBad = 4000, 600
+		nRand, nBad = 2000, 300
 	}
 	for i := 0; i < nRand; i++ {
 		add(c07Random(r, 2+i*6/nRand, false), "random")
@@ -1357,7 +1357,7 @@ func c07FileLines(name, state string, version int) []string {
 	case "present", "unreadable":
 		n = 9
 	case "short":
-		n = 1
+		n = 2 // one line less than the frame line of site A3
 	}
 	lines := make([]string, n)
 	for i := range lines {
